@@ -13,12 +13,12 @@ RULE = ('the program space of C02 and C03 (operator pairs, random straight-line 
         'correspondence tie/lingo_spec.py:pp_js applied to the source script, (3) compared with the Coq model\'s JavaScript. '
         'Non-trivial = expression depth >= 2 or a compound construct; distinct by SHA1 of the source.')
 EXPLANATION = ('Coq: for the expression core the emitted JavaScript is the printer of the JavaScript syntax tree to_js(e), and '
-               'from_js(to_js e) = e (the JavaScript denotes the same expression); see coq/Props/PropC04.v.')
+               'read_js(to_js e) = name_e e (the JavaScript denotes the same expression); see coq/Props/PropC04.v.')
 TRUSTED_BASE = P2.TRUSTED_BASE + ['node 20 (vm.Script) as the judge of syntactic validity; the JavaScript printer of the specification is trusted to print JavaScript']
 ASSUMPTIONS = P2.ASSUMPTIONS + ['the translator\'s fixed renamings (go -> _movie.go / goNext, new -> _movie.newScript / newMember, cast -> member, continue -> resume, handler new -> birth) are part of the correspondence']
 LEVEL_TEXT = ('Proof (partial): Coq theorems that for every expression tree of the core families the JavaScript emitted for the '
               'reified tree is the print of a JavaScript syntax tree to_js e (so it is well formed by construction of the '
-              'printer) and that to_js is invertible (from_js (to_js e) = Some e): the JavaScript denotes the same operators, '
+              'printer) and that the tree can be read back (read_js (to_js e) = the source expression with its names): it denotes the same operators, '
               'operand order, variable kinds and literals as the program and as the emitted Lingo. Syntactic validity against '
               'the real JavaScript grammar is decided by node on every generated program, not by a theorem.')
 LEVEL_NOTE = 'Validity rests on node + the trusted printer; statement / script-kind wrappers and the further families are covered by the token-for-token oracle and the model correspondence only.'
